@@ -117,6 +117,33 @@ def execute(case):
         return dict(case, raised="%s: %s" % (type(ex).__name__, ex))
     finally:
         ov.OnsetValidator.validate_temporal_relations = real
+    # history: ONE SpreadsheetValidator object validates file after file (a file may legally end with open scopes);
+    # what it reports for this file must be what a fresh validator reports
+    shared_diff = None
+    try:
+        from hed.validator.spreadsheet_validator import SpreadsheetValidator
+        if "sv" not in _G:
+            _G["sv"] = SpreadsheetValidator(schema)
+        proj = lambda L: sorted((str(x.get("code")), str(x.get("ec_row")), str(x.get("message"))[:80]) for x in L)
+        i2 = _G["sv"].validate(TabularInput(df), dd)
+        if proj(i2) != proj(issues):
+            shared_diff = "a validator object that validated other files before reports %s, a fresh one %s" % (proj(i2), proj(issues))
+    except Exception as ex:  # noqa
+        shared_diff = "a validator object that validated other files before raised %s: %s" % (type(ex).__name__, ex)
+    # file row (header = 1) in which each marker is written
+    rowof = {}
+    for i, sp in spell.items():
+        for k, r in enumerate(rows):
+            if re.search(r"Def/" + re.escape(sp) + r"(?![\w/])", r[1]):
+                rowof[i] = k + 2
+    # rows that belong to a marker's time point: rows with that onset and the carrier rows of its Delay-shifted markers
+    # (issues of a merged time point are labelled with ONE of its rows)
+    tprows = {}
+    for j, idxs in enumerate(tps):
+        rs = {rowof[i] for i in idxs if i in rowof} | {k + 2 for k, r in enumerate(rows) if float(r[0]) == (j + 1) * 10}
+        for i in idxs:
+            tprows[i] = rs
+    wrongrow = []
     verdict = {i: "ok" for i in range(len(hist))}
     unattributed = []
     other = []
@@ -138,6 +165,8 @@ def execute(case):
             name = m.group(1) if m else None
         if name in by_sp:
             verdict[by_sp[name]] = "error"
+            if iss.get("ec_row") is not None and tprows.get(by_sp[name]) and iss.get("ec_row") not in tprows[by_sp[name]]:
+                wrongrow.append((name, iss.get("ec_row"), sorted(tprows[by_sp[name]])))
         else:
             unattributed.append(iss.get("message", "")[:120])
     opens = []
@@ -151,7 +180,7 @@ def execute(case):
         else:
             opens.append(sorted(_fold(k) for k in hit[0][1]))
     return dict(case, obs=[[verdict[i] for i in idxs] for idxs in tps], open=opens, hasopen=hasopen,
-                unattributed=unattributed, other=other)
+                unattributed=unattributed, other=other, wrongrow=wrongrow, shared_diff=shared_diff)
 
 
 def _init(g):
@@ -227,6 +256,13 @@ def run(ctx):
             ctx.violation("raises", "file validation raised %s for rows %s" % (c["raised"], c["rows"]),
                           {"rows": c["rows"], "hist": c["hist"]})
             continue
+        if c.get("wrongrow"):
+            nm, got_r, want_r = c["wrongrow"][0]
+            ctx.violation("marker-reported-at-another-row", "the issue about marker Def/%s names file row %s; the marker's time point is made of the rows %s "
+                          "(the reported marker does not exist there); rows=%s" % (nm, got_r, want_r, c["rows"]),
+                          {"rows": c["rows"], "hist": c["hist"]})
+        if c.get("shared_diff"):
+            ctx.violation("depends-on-earlier-files", "%s; rows=%s" % (c["shared_diff"], c["rows"]), {"rows": c["rows"], "hist": c["hist"]})
         if c["unattributed"]:
             ctx.bump("unattributed_temporal_issues")
         if c["other"]:
